@@ -13,10 +13,9 @@ def run(ctx):
     ctx.proof_gate(theorems=THEOREMS)
     if not ctx.build_driver():
         return
+    # a crash of a model-stream harness must not keep the property oracle from searching for the failing input
     h = _v2.match_stream(ctx, 'hostile')
-    if not h:
-        return
-    if _v2.harness(ctx, 'tok'):
+    if h and _v2.harness(ctx, 'tok'):
         _v2.tok_stream(ctx, h)
     if _v2.harness(ctx, 'c10'):
         ctx.oracle_stream('no-panic-no-hang', ctx.rundir + '/c10.verdicts', ctx.rundir + '/c10.cases')
